@@ -23,6 +23,7 @@ CHECKS = {
             "a crash is process death at a named hook site (os.Exit in a child, no deferred functions, no buffered-writer flush): bytes handed to write(2) survive, user-space buffers do not; fsync and torn sectors are outside this model",
             "database directories live on tmpfs",
             "the background flush goroutine is quiesced between steps, so hook hit counts of a program are reproducible",
+            "concurrent variant (TestPropConcurrentCrash): interleavings are sampled, not enumerated; the crash point is the n-th hit of a site in a run whose hit counts vary, so a replay re-executes the workload up to 12 times; real-time order between clients is what one O_APPEND file of write(2) lines shows (issue line before the call, ack line after it)",
         ],
     },
     "C03": {
